@@ -119,6 +119,7 @@ type sweepGen struct {
 	seed   int64
 	tier   string
 	npiv   int
+	unary  []class // classes for one-argument calls
 	star   []class // classes for the one-hostile-position sweep
 	pairs  []class // classes for the full pair product
 }
@@ -126,12 +127,14 @@ type sweepGen struct {
 func newSweepGen(seed int64, tier string) *sweepGen {
 	g := &sweepGen{seed: seed, tier: tier}
 	thorough := tier == "thorough"
-	nAll, nCore, nMini, nTiny := len(allClasses), len(coreClasses), len(miniClasses), len(tinyClasses)
+	nCore, nMini, nTiny := len(coreClasses), len(miniClasses), len(tinyClasses)
 	// quick: one hostile position over the core classes, pairs over the ten tiny classes; thorough: one hostile
 	// position over every class, pairs over the sixteen mini classes, triples over the tiny classes
-	g.star, g.npiv, g.pairs = coreClasses, 1, tinyClasses
+	// the unary sweep covers every class in thorough and every class but the per-character-set ones of the
+	// rarer character sets in quick
+	g.unary, g.star, g.npiv, g.pairs = starClasses, coreClasses, 1, tinyClasses
 	if thorough {
-		g.star, g.npiv, g.pairs = starClasses, 1, miniClasses
+		g.unary, g.star, g.npiv, g.pairs = allClasses, starClasses, 1, miniClasses
 	}
 	add := func(fn string, ar int, kind string, count int) {
 		if count <= 0 {
@@ -148,7 +151,7 @@ func newSweepGen(seed int64, tier string) *sweepGen {
 			case ar == 0:
 				add(f.Name, 0, "nullary", 1)
 			case ar == 1 && primary:
-				add(f.Name, 1, "unary", nAll)
+				add(f.Name, 1, "unary", len(g.unary))
 			case !primary:
 				// wrong arity for a fixed-arity function: a short probe is enough (argument count check)
 				add(f.Name, ar, "random", 3)
@@ -193,7 +196,7 @@ func (g *sweepGen) Case(i int) genCase {
 	switch b.kind {
 	case "nullary":
 	case "unary":
-		args[0] = allClasses[j]
+		args[0] = g.unary[j]
 	case "star":
 		n := len(g.star)
 		pos := j / (n * g.npiv)
